@@ -263,6 +263,8 @@ class LocateRequestPayload(base.RequestPayload):
                 )
                 self._attributes = temp_attr.attributes
 
+        self.is_oversized(local_buffer)
+
     def write(self, output_buffer, kmip_version=enums.KMIPVersion.KMIP_1_0):
         """
         Write the data encoding the Locate request payload to a buffer.
